@@ -534,7 +534,8 @@ func performIDPRequest(log telemetry.Logger, client *http.Client, uri string, fo
 	}
 
 	bodyTokens := &idpTokensResponse{}
-	err = json.Unmarshal(respBody, &bodyTokens)
+	// bodyTokens is already a pointer: decoding into its address would let a literal `null` body set it to nil
+	err = json.Unmarshal(respBody, bodyTokens)
 	if err != nil {
 		log.Error("error unmarshalling tokens response", err)
 		return nil, codes.Internal
